@@ -1,6 +1,7 @@
 import AaVerif.Generated.Chains
 import AaVerif.Lines
 import AaVerif.Flags
+import AaVerif.Filter
 /-!
 # C18 — build options are orthogonal: each changes only what it governs
 
@@ -43,5 +44,88 @@ theorem C18_hotfix_line_local (t : List Char) : runSteps hotfix t = joinNl ((spl
 /-- non-vacuity: an ordinary rule line is untouched by the ABI task; a `userns` rule is not -/
 example : runSteps abi3 "  @{bin}/foo rix,".toList = "  @{bin}/foo rix,".toList := by decide +kernel
 example : runSteps abi3 "  userns,".toList = "  # userns,".toList := by decide +kernel
+
+/-! ### The directive part, on the specification of the only/exclude filter -/
+
+/-- the filters of an item (none for an unguarded line or an unterminated paragraph) -/
+def itemArgs : Filter.Item → List (List Char)
+  | .inline _ _ args => args
+  | .para _ _ args _ => args
+  | _ => []
+
+/-- **Distribution switch**: two targets with the same ABI and AppArmor version give the same text
+for every item whose filters name neither distribution and neither package family — only
+paragraphs and rules guarded by one of the two distributions or families can differ. -/
+theorem C18_dist_governed_items (tg₁ tg₂ : Filter.Target) (ha : tg₁.abi = tg₂.abi) (hv : tg₁.version = tg₂.version)
+    (it : Filter.Item)
+    (h : ∀ a ∈ itemArgs it, a ≠ tg₁.dist ∧ a ≠ tg₁.family ∧ a ≠ tg₂.dist ∧ a ≠ tg₂.family) :
+    Filter.specItem tg₁ it = Filter.specItem tg₂ it := by
+  have key : ∀ args : List (List Char),
+      (∀ a ∈ args, a ≠ tg₁.dist ∧ a ≠ tg₁.family ∧ a ≠ tg₂.dist ∧ a ≠ tg₂.family) →
+      Filter.forUs tg₁ args = Filter.forUs tg₂ args := by
+    intro args hh
+    have n1 : args.contains tg₁.dist = false := by
+      cases e : args.contains tg₁.dist with
+      | false => rfl
+      | true => exact absurd rfl (hh _ (by simpa using e)).1
+    have n2 : args.contains tg₁.family = false := by
+      cases e : args.contains tg₁.family with
+      | false => rfl
+      | true => exact absurd rfl (hh _ (by simpa using e)).2.1
+    have n3 : args.contains tg₂.dist = false := by
+      cases e : args.contains tg₂.dist with
+      | false => rfl
+      | true => exact absurd rfl (hh _ (by simpa using e)).2.2.1
+    have n4 : args.contains tg₂.family = false := by
+      cases e : args.contains tg₂.family with
+      | false => rfl
+      | true => exact absurd rfl (hh _ (by simpa using e)).2.2.2
+    unfold Filter.forUs
+    rw [n1, n2, n3, n4, ha, hv]
+  cases it with
+  | plain l => rfl
+  | unterminated ls => rfl
+  | inline code only args => simp only [Filter.specItem, Filter.keep, key args h]; rfl
+  | para m only args body => simp only [Filter.specItem, Filter.keep, key args h]; rfl
+
+/-- **ABI / version switch**: two targets with the same distribution and family give the same text
+for every item whose filters name neither ABI and neither version. -/
+theorem C18_abi_governed_items (tg₁ tg₂ : Filter.Target) (hd : tg₁.dist = tg₂.dist) (hf : tg₁.family = tg₂.family)
+    (it : Filter.Item)
+    (h : ∀ a ∈ itemArgs it, a ≠ tg₁.abi ∧ a ≠ tg₁.version ∧ a ≠ tg₂.abi ∧ a ≠ tg₂.version) :
+    Filter.specItem tg₁ it = Filter.specItem tg₂ it := by
+  have key : ∀ args : List (List Char),
+      (∀ a ∈ args, a ≠ tg₁.abi ∧ a ≠ tg₁.version ∧ a ≠ tg₂.abi ∧ a ≠ tg₂.version) →
+      Filter.forUs tg₁ args = Filter.forUs tg₂ args := by
+    intro args hh
+    have n1 : args.contains tg₁.abi = false := by
+      cases e : args.contains tg₁.abi with
+      | false => rfl
+      | true => exact absurd rfl (hh _ (by simpa using e)).1
+    have n2 : args.contains tg₁.version = false := by
+      cases e : args.contains tg₁.version with
+      | false => rfl
+      | true => exact absurd rfl (hh _ (by simpa using e)).2.1
+    have n3 : args.contains tg₂.abi = false := by
+      cases e : args.contains tg₂.abi with
+      | false => rfl
+      | true => exact absurd rfl (hh _ (by simpa using e)).2.2.1
+    have n4 : args.contains tg₂.version = false := by
+      cases e : args.contains tg₂.version with
+      | false => rfl
+      | true => exact absurd rfl (hh _ (by simpa using e)).2.2.2
+    unfold Filter.forUs
+    rw [n1, n2, n3, n4, hd, hf]
+  cases it with
+  | plain l => rfl
+  | unterminated ls => rfl
+  | inline code only args => simp only [Filter.specItem, Filter.keep, key args h]; rfl
+  | para m only args body => simp only [Filter.specItem, Filter.keep, key args h]; rfl
+
+/-- a guarded paragraph that names one of the two distributions does differ (the theorem is sharp) -/
+example : Filter.specItem ⟨"arch".toList, "pacman".toList, "abi4".toList, "apparmor4.1".toList⟩
+      (.para "  #aa:only arch".toList true ["arch".toList] ["  /a r,".toList])
+    ≠ Filter.specItem ⟨"debian".toList, "apt".toList, "abi4".toList, "apparmor4.1".toList⟩
+      (.para "  #aa:only arch".toList true ["arch".toList] ["  /a r,".toList]) := by decide +kernel
 
 end C18
